@@ -82,7 +82,7 @@ def REQUIRED(tier):
         "workload.radical-centre": 100 * k,
         "workload.hinted-centre": 100 * k,
         "workload.zero-neighbour-centre": 100 * k,
-        "workload.explicit-atom-arguments": 100 * k,
+        "workload.explicit-atom-arguments": 100 * k, "workload.explicit-negative-index": 20 * k,
         "workload.structure-class": 100 * k,
         "idempotence.second-call-hint-free": 1000 * k,
         "parse-script.contract-calls": 20,
@@ -1045,7 +1045,21 @@ def _run_generated(spec, ctx, contract):
                 r = ctx.rng(spec["chunk"], j, "args")
                 chosen = [i for i in elig if r.random() < 0.5] or elig[:1]
                 by_index = r.random() < 0.3          # AtomLike: Atom objects, or (sometimes) indices
-                args = tuple(i if by_index and r.random() < 0.7 else mol.get_atom(i) for i in chosen)
+                if r.random() < 0.5:
+                    r.shuffle(chosen)                # the atoms may be named in any order
+                n_at = len(bp["atoms"])
+                args = []
+                for i in chosen:
+                    if by_index and r.random() < 0.7:
+                        # an index counts from the front or (negative) from the end of the atom list as it is at the call
+                        if r.random() < 0.4:
+                            args.append(i - n_at)
+                            ctx.count("workload.explicit-negative-index")
+                        else:
+                            args.append(i)
+                    else:
+                        args.append(mol.get_atom(i))
+                args = tuple(args)
             else:
                 args = ()
             witness = {"molecule": brief_bp(bp, pose), "coords": np_round(coords)}
@@ -1060,7 +1074,9 @@ def _run_generated(spec, ctx, contract):
                      if first and first["nontrivial"] and pose in ("gen", "-z") else None)
             if first:
                 ctx.count("hydrogens.added", first["n_new"])
-            _second_call(ctx, contract, mol, args, case, first, **witness)
+            # the second call names the same atoms (an index counted from the end means another atom by now)
+            args2 = tuple(x + len(bp["atoms"]) if isinstance(x, int) and x < 0 else x for x in args)
+            _second_call(ctx, contract, mol, args2, case, first, **witness)
 
 
 def np_round(c):
